@@ -1,28 +1,89 @@
 // Environment overrides linked into every SRE harness (link-time, /repo untouched):
-//  * nano::parallel::pool_t is built without OS threads: its thread list holds one non-joinable std::thread, so
-//    size() == 1 and pool_t::map() takes the inline path (schedules are outside every SRE claim).
+//  * nano::parallel::pool_t is built without OS threads. By default its thread list holds one non-joinable std::thread, so
+//    size() == 1 and pool_t::map() takes the inline path.
+//  * SEQUENTIALISED MULTI-WORKER MODE (h::g_max_workers > 1, set by a harness before it builds its pools): the pool reports
+//    K workers, map() takes its real enqueue path (packaged tasks, futures, queue), and section_t::block() - the completion
+//    barrier of map() - first drains the queue on the calling thread, handing every task a worker id chosen by the scheduling
+//    policy h::g_sched (round-robin / all on the last worker / reversed / ARBITRARY = symbolic choice per task). This covers
+//    every assignment of tasks to workers, not the interleavings of concurrently running tasks.
 //  * nano::make_rng() without seed uses a fixed seed instead of std::random_device (reproducible paths).
+#include "sym.h"
 #include <nano/core/parallel.h>
 #include <nano/core/random.h>
+#include <vector>
 
 using namespace nano;
 using namespace nano::parallel;
 
+namespace h
+{
+size_t g_max_workers = 1; ///< upper bound on the workers of a pool (pool_t::max_size())
+int    g_sched       = 0; ///< 0 round-robin, 1 all tasks on the last worker, 2 reversed round-robin, 3 arbitrary (symbolic choice)
+long   g_tasks_run   = 0; ///< tasks executed by the sequentialised scheduler
+struct pool_entry_t
+{
+    queue_t* queue;
+    size_t   workers;
+};
+std::vector<pool_entry_t> g_pools;
+} // namespace h
+
 pool_t::pool_t()
-    : pool_t(1U)
+    : pool_t(max_size())
 {
 }
-pool_t::pool_t(const size_t)
+pool_t::pool_t(const size_t threads)
 {
-    m_threads.emplace_back();
+    const auto n = threads < 1 ? size_t(1) : (threads > h::g_max_workers ? h::g_max_workers : threads);
+    for (size_t i = 0; i < n; ++i) m_threads.emplace_back();
+    h::g_pools.push_back({&m_queue, n});
 }
 pool_t::~pool_t()
 {
+    for (size_t i = 0; i < h::g_pools.size(); ++i)
+        if (h::g_pools[i].queue == &m_queue)
+        {
+            h::g_pools.erase(h::g_pools.begin() + static_cast<long>(i));
+            break;
+        }
     m_threads.clear();
 }
 size_t pool_t::max_size()
 {
-    return 1U;
+    return h::g_max_workers;
+}
+void section_t::block(const bool raise)
+{
+    // drain every queue on this thread (only non-empty in the sequentialised multi-worker mode)
+    for (size_t p = 0; p < h::g_pools.size(); ++p)
+    {
+        auto*  queue   = h::g_pools[p].queue;
+        auto   workers = h::g_pools[p].workers;
+        size_t k       = 0;
+        while (!queue->m_tasks.empty())
+        {
+            auto task = std::move(queue->m_tasks.front());
+            queue->m_tasks.pop_front();
+            size_t tnum = 0;
+            switch (h::g_sched)
+            {
+            case 1: tnum = workers - 1; break;
+            case 2: tnum = workers - 1 - (k % workers); break;
+            case 3: tnum = static_cast<size_t>(sym_choose(sym_nm("worker", h::g_tasks_run).c_str(), static_cast<int>(workers))); break;
+            default: tnum = k % workers; break;
+            }
+            ++k;
+            ++h::g_tasks_run;
+            task(tnum);
+        }
+    }
+    for (const auto& future : *this)
+    {
+        if (future.valid())
+        {
+            raise ? future.get() : future.wait();
+        }
+    }
 }
 rng_t nano::make_rng(seed_t seed)
 {
